@@ -13,7 +13,7 @@ from .. import interp as X
 from .. import rx
 from ..region import *
 from ..core import guarded
-from .c03 import VARIANTS, variants_ok, RM, r4_validity
+from .c03 import VARIANTS, variants_ok, RM, RE, r4_validity
 
 
 def run(ctx):
@@ -38,7 +38,9 @@ def r1_start_char(ctx):
     def delegation(x):
         d = T.typed(('call', RM + 'is_empty_re', (m, ('call', RM + 'deriv', (m, x, c)))), 'bool')
         d2 = T.typed(('call', RM + 'is_empty_re', (m, ('call', RM + 'char_derivative', (m, x, c)))), 'bool')
-        return [NOT(d), NOT(d2)]
+        # deriv(e, c) written out: the cached derivative for the class of c in e's own partition
+        d3 = T.typed(('call', RM + 'is_empty_re', (m, ('call', RM + 'cached_deriv', (m, x, ('call', RE + 'RE::class_of_char', (x, c)))))), 'bool')
+        return [NOT(d), NOT(d2), NOT(d3)]
 
     for cfg in ('dev', 'rel'):
         an = analyse(ctx, cfg, RM + 'start_char', [], uninterpreted=lambda p: not (p.endswith('CharSet::contains') or p.endswith('CharSet::is_before') or p.endswith('CharSet::is_after')))
